@@ -45,7 +45,7 @@ type VirtualObject struct {
 type APIReferenceCollector struct {
 	virtualObjects   map[string]map[string]VirtualObject
 	objectMethods    map[string][]MethodReference
-	builderMethods   map[string][]MethodReference
+	builderMethods   map[builderReference][]MethodReference
 	packageFunctions map[string][]FunctionReference
 }
 
@@ -53,7 +53,7 @@ func NewAPIReferenceCollector() *APIReferenceCollector {
 	return &APIReferenceCollector{
 		virtualObjects:   make(map[string]map[string]VirtualObject),
 		objectMethods:    make(map[string][]MethodReference),
-		builderMethods:   make(map[string][]MethodReference),
+		builderMethods:   make(map[builderReference][]MethodReference),
 		packageFunctions: make(map[string][]FunctionReference),
 	}
 }
@@ -103,14 +103,21 @@ func (collector *APIReferenceCollector) methodsForObject(object ast.Object) []Me
 	return collector.objectMethods[objectRef]
 }
 
+// builderReference identifies a builder: package and name are kept apart,
+// `a_b` + `c` and `a` + `b_c` are different builders.
+type builderReference struct {
+	pkg  string
+	name string
+}
+
 func (collector *APIReferenceCollector) BuilderMethod(builder ast.Builder, methodReference MethodReference) {
-	ref := fmt.Sprintf("%s_%s", builder.Package, builder.Name)
+	ref := builderReference{pkg: builder.Package, name: builder.Name}
 	methodReference.ReceiverBuilder = &builder
 	collector.builderMethods[ref] = append(collector.builderMethods[ref], methodReference)
 }
 
 func (collector *APIReferenceCollector) methodsForBuilder(builder ast.Builder) []MethodReference {
-	ref := fmt.Sprintf("%s_%s", builder.Package, builder.Name)
+	ref := builderReference{pkg: builder.Package, name: builder.Name}
 	return collector.builderMethods[ref]
 }
 
